@@ -576,6 +576,20 @@ ARollbackBefore ==
                          !.consec = g.consec + moved,
                          !.must = must], d))
 
+\* C13: a rollback issued while edits are pending and no usable record exists for the current stamp must be
+\* refused and change nothing (with a usable record the call is outside every property's premise and is not generated)
+ARollbackRefused ==
+  /\ "rb_refused" \in Ops /\ Alive /\ ~g.clean /\ K > 0 /\ v.dirEx
+  /\ \/ /\ ~HasRecord(v)
+        /\ LET s == Rollback(v, Dev) IN
+           Step("rollback", <<>>, s, [g EXCEPT !.must = "err"])
+     \/ \E target \in 1..MaxStamp :
+          /\ target <= v.stamp
+          /\ ~HasRecord(v)
+          /\ \E rr \in v.changes : rr.f < v.stamp      \* an older record exists: the walk stops at once with a stamp mismatch
+          /\ LET s == RollbackBefore(v, target, Dev) IN
+             Step("rollback_before", <<target>>, s, [g EXCEPT !.must = "err"])
+
 \* change-directory faults (C16)
 AFaultDelete ==
   /\ "fault" \in Ops /\ Alive /\ g.clean /\ HasRecord(v)
@@ -589,7 +603,7 @@ AFaultCorrupt ==
           [g EXCEPT !.avail = 0, !.faulted = TRUE, !.must = "ok"])
 
 Next == \/ APush \/ ACheckedPush \/ ATruncate \/ AUpdate \/ ADelete \/ AFill \/ AWrite \/ AFlushReimport \/ AReset
-        \/ ACommit \/ ARollback \/ ARollbackBefore \/ AFaultDelete \/ AFaultCorrupt
+        \/ ACommit \/ ARollback \/ ARollbackBefore \/ ARollbackRefused \/ AFaultDelete \/ AFaultCorrupt
 
 Spec == Init /\ [][Next]_vars
 
